@@ -48,6 +48,7 @@ def run(chk):
                 if not cons:
                     raise AnalysisError('C02.R2', B.qual, f'no consistent path for active={act}')
                 for p in cons:
+                    chk.focus(p, pe)
                     k = B.kinds[id(p)]
                     if act is None:
                         ws = p.writes()
@@ -84,6 +85,7 @@ def run(chk):
             if not cons:
                 raise AnalysisError('C02.R3', B.qual, f'no accepting path for {b} after {n} calls')
             for p in cons:
+                chk.focus(p, pe)
                 k = B.kinds[id(p)]
                 chk.require((k == 'FINISHED') == want_fin, 'C02.R3', B.where, B.qual,
                             f'{b} after {n} calls, last pass={h1}, one before pass={h2} -> {k}',
@@ -99,6 +101,7 @@ def run(chk):
             for p in B.accept:
                 if not B.consistent(p, pe, b):
                     continue
+                chk.focus(p, pe)
                 k = B.kinds[id(p)]
                 common, seat = [], []
                 for e in p.events:
@@ -134,6 +137,7 @@ def run(chk):
                                 f'after a call by {a.name} the turn passes to {CLOCKWISE[a.name]}',
                                 f'after a call by {a.name} the turn passes to {ap}, clockwise is {CLOCKWISE[a.name]}')
     # a refused call leaves no trace in either history and does not move the turn
+    chk.focus(None)
     for p in B.illegal:
         ws = [e for e in p.writes() if (getattr(e, 'target', None) in (r.history, r.seat_history, r.active)) or
               (e.kind == 'call' and (e.recv == r.history or e.recv.startswith(r.seat_history + '[') or e.recv.startswith(r.seat_history)))]
